@@ -4,6 +4,8 @@ import (
 	"fmt"
 	"strings"
 
+	"github.com/sarchlab/akita/v4/mem/vm"
+	"github.com/sarchlab/mgpusim/v4/amd/driver"
 	"github.com/sarchlab/mgpusim/v4/amd/emu"
 )
 
@@ -130,5 +132,320 @@ func init() {
 		for i := 0; i < 60; i++ {
 			c11FlushScenario(r, rng)
 		}
+	})
+}
+
+// ---------------------------------------------------------------------------------------------
+// The SAME accessor object before and after the page table changes: Remap / Distribute move a page
+// the accessor has already used, Free removes it (and the frame is handed to a later allocation at
+// another virtual address). Every access must go to the frame the page table names NOW. Case lines
+// `c11 accrun seed= frames=… ; pt … ; w addr len salt ; r addr len ; … ; img` are answered by
+// `C11.runAccRun` (theorem acc_run_uses_current_table: the page-wise model = the per-byte view
+// under the table current at each step).
+type c11AccBuf struct {
+	addr  uint64
+	pages int
+	freed bool
+}
+
+func accessorRuns(r *Run, rng *Rng, n int) {
+	const log2, ps = uint64(12), uint64(4096)
+	for n > 0 {
+		gpus := rng.Pick(2, 2, 4)
+		p := newEmuPlatform(r.OutDir, gpus, log2)
+		ctx := p.drv.Init()
+		st := p.drv.VerifGlobalStorage()
+		pt := p.drv.VerifPageTable()
+		pid := ctx.VerifPID()
+		acc := emu.NewStorageAccessor(st, pt, log2, nil) // ONE accessor for every scenario of this platform
+		per := 25
+		if per > n {
+			per = n
+		}
+		for k := 0; k < per; k++ {
+			n--
+			c11AccRun(r, rng, p, ctx, acc, gpus)
+		}
+		_ = pid
+		p.close()
+	}
+}
+
+func c11AccRun(r *Run, rng *Rng, p *platform, ctx *driver.Context, acc emu.StorageAccessor, gpus int) {
+	const ps = uint64(4096)
+	st := p.drv.VerifGlobalStorage()
+	pt := p.drv.VerifPageTable()
+	pid := ctx.VerifPID()
+	seed := rng.Intn(200)
+	var bufs []*c11AccBuf
+	var base, top uint64
+	alloc := func(pages int) *c11AccBuf {
+		if gpus > 1 {
+			p.drv.SelectGPU(ctx, rng.Range(1, gpus))
+		}
+		a := uint64(p.drv.AllocateMemory(ctx, uint64(pages)*ps))
+		if base == 0 {
+			base = a
+		}
+		top = a + uint64(pages)*ps
+		b := &c11AccBuf{addr: a, pages: pages}
+		bufs = append(bufs, b)
+		return b
+	}
+	alloc(rng.Range(2, 3))
+	alloc(rng.Range(1, 2))
+	var frames [][2]uint64
+	frameIx := map[uint64]int{}
+	ops := []string{""}
+	var out []string
+	lastPt := "?"
+	// snapshot: current table over every page this scenario allocated; new frames get their pattern
+	snapshot := func() {
+		var parts []string
+		for va := base; va < top; va += ps {
+			pg, ok := pt.Find(pid, va)
+			if !ok {
+				continue
+			}
+			parts = append(parts, fmt.Sprintf("%x:%x:%d", pg.VAddr, pg.PAddr, pg.PageSize))
+			if _, seen := frameIx[pg.PAddr]; !seen {
+				i := len(frames)
+				frameIx[pg.PAddr] = i
+				frames = append(frames, [2]uint64{pg.PAddr, pg.PageSize})
+				b := make([]byte, pg.PageSize)
+				for j := range b {
+					b[j] = pagePattern(seed+i, j)
+				}
+				must(st.Write(pg.PAddr, b))
+			}
+		}
+		s := strings.Join(parts, ",")
+		if s == "" {
+			s = "-"
+		}
+		if s != lastPt {
+			lastPt = s
+			ops = append(ops, "pt "+s)
+		}
+	}
+	line := func() string {
+		var fs []string
+		for _, f := range frames {
+			fs = append(fs, fmt.Sprintf("%x:%d", f[0], f[1]))
+		}
+		ops[0] = fmt.Sprintf("c11 accrun seed=%d frames=%s", seed, strings.Join(fs, ","))
+		return strings.Join(ops, " ; ")
+	}
+	live := func() *c11AccBuf {
+		var l []*c11AccBuf
+		for _, b := range bufs {
+			if !b.freed {
+				l = append(l, b)
+			}
+		}
+		if len(l) == 0 {
+			return nil
+		}
+		return l[rng.Intn(len(l))]
+	}
+	var hot *c11AccBuf // buffer accessed last: the next table change prefers it
+	var hotOff uint64
+	faulted := false
+	access := func(b *c11AccBuf, off, l uint64, write bool) {
+		snapshot()
+		addr := b.addr + off
+		// the frames as they are now, to see what a write changes
+		before := make([][]byte, len(frames))
+		for i, f := range frames {
+			before[i], _ = st.Read(f[0], f[1])
+		}
+		mapped := true
+		for i := uint64(0); i < l; i++ {
+			if _, ok := pt.Find(pid, addr+i); !ok {
+				mapped = false
+			}
+		}
+		if write {
+			salt := rng.Intn(50)
+			data := make([]byte, l)
+			for i := range data {
+				data[i] = h2dByte(addr+uint64(salt), uint64(i))
+			}
+			ops = append(ops, fmt.Sprintf("w %x %d %d", addr, l, salt))
+			fault := catch(func() { acc.Write(pid, addr, data) })
+			r.Checked("accrun.write")
+			if fault != "" {
+				out = append(out, "fault:page_not_found")
+				faulted = true
+				if mapped {
+					r.Failf("C11.accessor.fault-on-mapped-range", line(), "Write of %d bytes at %x panicked (%s) although every byte is mapped", l, addr, fault)
+				}
+				return
+			}
+			out = append(out, "ok")
+			if !mapped {
+				r.Failf("C11.accessor.access-after-free", line(), "Write of %d bytes at %x succeeded although part of the range is not mapped any more", l, addr)
+				return
+			}
+			want := make([][]byte, len(frames))
+			for i := range before {
+				want[i] = append([]byte{}, before[i]...)
+			}
+			for i := uint64(0); i < l; i++ {
+				pg, _ := pt.Find(pid, addr+i)
+				want[frameIx[pg.PAddr]][addr+i-pg.VAddr] = data[i]
+			}
+			for i, f := range frames {
+				now, _ := st.Read(f[0], f[1])
+				if d := firstDiff(now, want[i]); d >= 0 {
+					sig := "C11.accessor.write-wrong-frame"
+					if now[d] == before[i][d] {
+						sig = "C11.accessor.stale-translation"
+					}
+					r.Failf(sig, line(), "after Write(%x, %d bytes): frame %x byte %d is %02x; under the page table as it is now it must be %02x", addr, l, f[0], d, now[d], want[i][d])
+					return
+				}
+			}
+		} else {
+			ops = append(ops, fmt.Sprintf("r %x %d", addr, l))
+			var got []byte
+			fault := catch(func() { got = acc.Read(pid, addr, l) })
+			r.Checked("accrun.read")
+			if fault != "" {
+				out = append(out, "fault:page_not_found")
+				faulted = true
+				if mapped {
+					r.Failf("C11.accessor.fault-on-mapped-range", line(), "Read of %d bytes at %x panicked (%s) although every byte is mapped", l, addr, fault)
+				}
+				return
+			}
+			out = append(out, fmt.Sprintf("%x", fnv(got)))
+			if !mapped {
+				r.Failf("C11.accessor.access-after-free", line(), "Read of %d bytes at %x succeeded although part of the range is not mapped any more", l, addr)
+				return
+			}
+			for i := range got {
+				pg, _ := pt.Find(pid, addr+uint64(i))
+				if got[i] != before[frameIx[pg.PAddr]][addr+uint64(i)-pg.VAddr] {
+					r.Failf("C11.accessor.stale-translation", line(), "Read(%x, %d bytes): byte %d is not the byte of frame %x, which the page table names now for %x", addr, l, i, pg.PAddr, addr+uint64(i))
+					return
+				}
+			}
+		}
+		hot, hotOff = b, off
+	}
+	steps := rng.Range(5, 12)
+	for i := 0; i < steps && !faulted; i++ {
+		x := rng.Intn(100)
+		b := live()
+		switch {
+		case x < 50 && b != nil:
+			if hot != nil && !hot.freed && rng.Chance(60) {
+				b = hot // come back to the page that was just moved
+			}
+			size := uint64(b.pages) * ps
+			l := uint64(rng.Pick(1, 4, 8, 16, 64, rng.Range(1, 80)))
+			pg := uint64(rng.Range(0, b.pages)) * ps
+			back := uint64(rng.Pick(0, 1, 4, int(l)-1, int(l), rng.Range(0, 80)))
+			off := uint64(0)
+			if pg >= back {
+				off = pg - back
+			}
+			if b == hot && rng.Chance(50) {
+				off = hotOff
+			}
+			if off+l > size {
+				off = size - l
+			}
+			if off/ps != (off+l-1)/ps {
+				r.Count("accrun.crosses-page")
+			}
+			access(b, off, l, rng.Chance(50))
+		case x < 68 && b != nil:
+			if hot != nil && !hot.freed && rng.Chance(70) {
+				b = hot
+			}
+			pgi := rng.Intn(b.pages)
+			if b == hot && rng.Chance(70) {
+				pgi = int(hotOff / ps)
+			}
+			g := rng.Range(1, gpus)
+			if catch(func() { p.drv.Remap(ctx, b.addr+uint64(pgi)*ps, ps, g) }) == "" {
+				r.Count("accrun.remap")
+			}
+		case x < 78 && b != nil && b.pages > 1:
+			ids := []int{}
+			for g := 1; g <= gpus; g++ {
+				ids = append(ids, g)
+			}
+			if catch(func() { p.drv.Distribute(ctx, driver.Ptr(b.addr), uint64(b.pages)*ps, ids) }) == "" {
+				r.Count("accrun.distribute")
+			}
+		case x < 88 && b != nil:
+			var old []uint64
+			for i := 0; i < b.pages; i++ {
+				pg, _ := pt.Find(pid, b.addr+uint64(i)*ps)
+				old = append(old, pg.PAddr)
+			}
+			if catch(func() { p.drv.FreeMemory(ctx, driver.Ptr(b.addr)) }) == "" {
+				b.freed = true
+				r.Count("accrun.free")
+				if rng.Chance(40) {
+					// the same virtual range is mapped again, onto the old frames in rotated order
+					for i := 0; i < b.pages; i++ {
+						pt.Insert(vm.Page{PID: pid, VAddr: b.addr + uint64(i)*ps, PAddr: old[(i+1)%b.pages], PageSize: ps, Valid: true})
+					}
+					r.Count("accrun.mapped-again-after-free")
+					access(b, uint64(rng.Pick(0, 4090, 8)), uint64(rng.Pick(1, 8, 16)), rng.Bool())
+					if !faulted {
+						access(b, uint64(rng.Pick(0, 4090, 8)), uint64(rng.Pick(1, 8, 16)), false)
+					}
+					break
+				}
+				if rng.Chance(35) { // use the freed range: the accessor must not remember the page
+					r.Count("accrun.access-freed")
+					access(b, uint64(rng.Pick(0, 4090)), uint64(rng.Pick(1, 8, 16)), rng.Bool())
+				}
+			}
+		default:
+			nb := alloc(rng.Range(1, 2)) // may receive a frame a freed buffer gave back
+			snapshot()
+			for va := nb.addr; va < nb.addr+uint64(nb.pages)*ps; va += ps {
+				if pg, ok := pt.Find(pid, va); ok {
+					if i, seen := frameIx[pg.PAddr]; seen && i < len(frames)-nb.pages {
+						r.Count("accrun.frame-reused")
+					}
+				}
+			}
+			hot, hotOff = nb, 0
+		}
+	}
+	if !faulted {
+		snapshot()
+		ops = append(ops, "img")
+		var hs []string
+		for _, f := range frames {
+			b, _ := st.Read(f[0], f[1])
+			hs = append(hs, fmt.Sprintf("%x", fnv(b)))
+		}
+		out = append(out, strings.Join(hs, ","))
+	}
+	r.Case(line(), strings.Join(out, " "))
+	r.Count("accrun.scenario")
+}
+
+func init() {
+	f := func(r *Run, rng *Rng, _ string) {
+		n := 150
+		if r.Tier == "thorough" {
+			n = 5000
+		}
+		accessorRuns(r, rng, n)
+	}
+	register("C11", f)
+	register("C01", func(r *Run, rng *Rng, _ string) {
+		r.OracleOnly = true
+		defer func() { r.OracleOnly = false }()
+		accessorRuns(r, rng, 60)
 	})
 }
